@@ -264,6 +264,16 @@ func (r *FeatureLocal) ApproveOrDenyWrite(msg *api.Message, err model.ErrorType)
 	// do we have enough approvals?
 	r.muxWriteReceived.Lock()
 	defer r.muxWriteReceived.Unlock()
+
+	// the write may have been taken since the lookup above (timeout, another
+	// verdict, the peer's connection removed): do not count for it any more
+	r.muxResponseCB.Lock()
+	current, pending := r.pendingWriteApprovals[ski][*msg.RequestHeader.MsgCounter]
+	r.muxResponseCB.Unlock()
+	if !pending || current != timer {
+		return
+	}
+
 	if count > 1 && err.ErrorNumber == 0 {
 		amount, ok := r.writeApprovalReceived[ski][*msg.RequestHeader.MsgCounter]
 		if ok {
